@@ -1,4 +1,232 @@
-use crate::{ctx::CaseOut, Params};
-pub fn case(_idx: u64, _seed: u64, _p: &Params, o: &mut CaseOut) {
-    o.skipped = true;
+//! C12 — structural predicates decide exactly their mathematical definitions.
+
+use crate::ctx::CaseOut;
+use crate::events::check_tiling;
+use crate::gen;
+use crate::model::Model;
+use crate::props::c11::{hook_begin, hook_end};
+use crate::reprs::*;
+use crate::rng::{Fp, Rng};
+use crate::Params;
+use graaf::*;
+
+fn preds<D>(d: &D, m: &Model, o: &mut CaseOut, name: &str)
+where
+    D: IsComplete + IsSemicomplete + IsTournament + IsRegular + IsBalanced + IsSymmetric + IsOriented + IsSimple,
+{
+    o.eq(&format!("{name}::is_complete"), &d.is_complete(), &m.is_complete());
+    o.eq(&format!("{name}::is_semicomplete"), &d.is_semicomplete(), &m.is_semicomplete());
+    o.eq(&format!("{name}::is_tournament"), &d.is_tournament(), &m.is_tournament());
+    o.eq(&format!("{name}::is_regular"), &d.is_regular(), &m.is_regular());
+    o.eq(&format!("{name}::is_balanced"), &d.is_balanced(), &m.is_balanced());
+    o.eq(&format!("{name}::is_symmetric"), &d.is_symmetric(), &m.is_symmetric());
+    o.eq(&format!("{name}::is_oriented"), &d.is_oriented(), &m.is_oriented());
+    o.eq(&format!("{name}::is_simple"), &d.is_simple(), &true);
+}
+
+fn pair<D>(h: &D, d: &D, mh: &Model, md: &Model, o: &mut CaseOut, name: &str)
+where
+    D: IsSubdigraph + IsSuperdigraph + IsSpanningSubdigraph,
+{
+    o.eq(&format!("{name}::is_subdigraph"), &h.is_subdigraph(d), &mh.is_subdigraph_of(md));
+    o.eq(&format!("{name}::is_subdigraph(rev)"), &d.is_subdigraph(h), &md.is_subdigraph_of(mh));
+    o.eq(&format!("{name}::is_superdigraph"), &d.is_superdigraph(h), &mh.is_subdigraph_of(md));
+    o.eq(&format!("{name}::is_superdigraph(rev)"), &h.is_superdigraph(d), &md.is_subdigraph_of(mh));
+    o.eq(&format!("{name}::is_spanning_subdigraph"), &h.is_spanning_subdigraph(d), &mh.is_spanning_subdigraph_of(md));
+    o.eq(&format!("{name}::is_spanning_subdigraph(rev)"), &d.is_spanning_subdigraph(h), &md.is_spanning_subdigraph_of(mh));
+    o.eq(&format!("{name}::is_subdigraph(self)"), &d.is_subdigraph(d), &true);
+    o.eq(&format!("{name}::is_spanning_subdigraph(self)"), &d.is_spanning_subdigraph(d), &true);
+}
+
+/// H derived from D: delete arcs / a top vertex, add one arc, change order.
+fn derive(r: &mut Rng, d: &Model) -> Model {
+    let mut h = d.clone();
+    let n = d.n();
+    match r.below(7) {
+        0 => {}
+        1 | 2 => {
+            // delete some arcs
+            let keys = h.arc_list();
+            for a in keys {
+                if r.chance(0.4) {
+                    h.remove(a.0, a.1);
+                }
+            }
+        }
+        3 => {
+            // drop the last vertex (stays contiguous)
+            if n >= 2 {
+                h = d.induced(|v| v != n - 1);
+            }
+        }
+        4 => {
+            // add one arc that D doesn't have
+            if n >= 2 {
+                let u = r.below(n);
+                let v = (u + 1 + r.below(n - 1)) % n;
+                h.add(u, v, 1);
+            }
+        }
+        5 => {
+            // one more (isolated) vertex, same arcs
+            h.verts.insert(n);
+        }
+        _ => {
+            // delete arcs and one more vertex
+            let keys = h.arc_list();
+            for a in keys {
+                if r.chance(0.5) {
+                    h.remove(a.0, a.1);
+                }
+            }
+            h.verts.insert(n);
+        }
+    }
+    h
+}
+
+/// Non-contiguous derivation: drop an arbitrary vertex.
+fn derive_sparse(r: &mut Rng, d: &Model) -> Model {
+    let vs = d.vert_list();
+    match r.below(4) {
+        0 if vs.len() >= 2 => {
+            let x = *r.pick(&vs);
+            d.induced(|v| v != x)
+        }
+        1 => {
+            let mut h = d.clone();
+            let keys = h.arc_list();
+            for a in keys {
+                if r.chance(0.4) {
+                    h.remove(a.0, a.1);
+                }
+            }
+            h
+        }
+        2 => {
+            let mut h = d.clone();
+            h.verts.insert(vs.iter().max().unwrap() + 1 + r.below(3));
+            h
+        }
+        _ => d.clone(),
+    }
+}
+
+pub const TYPES: [&str; 7] = [
+    "AdjacencyList",
+    "AdjacencyMap",
+    "AdjacencyMap(non-contiguous)",
+    "AdjacencyMatrix",
+    "EdgeList",
+    "AdjacencyListWeighted<usize>",
+    "AdjacencyListWeighted<isize>",
+];
+
+pub fn case(idx: u64, seed: u64, p: &Params, o: &mut CaseOut) {
+    let mut r = Rng::for_case(12, seed, idx);
+    let max = p.usize("max_order", 40);
+    let only = p.usize("kind", usize::MAX);
+    let kind = if only < TYPES.len() { only } else { *r.pick(&[0usize, 0, 0, 1, 2, 2, 3, 4, 5, 6]) };
+    // boundary families are prominent
+    let fam = match r.below(10) {
+        0..=3 => 16,           // near_boundary
+        4 => 9,                // tournament
+        5 => 15,               // circulant (regular) +- 1 arc
+        6 => 17,               // symmetric +- 1 arc
+        7 => 2,                // complete
+        _ => r.below(gen::FAMILIES.len()),
+    };
+    let n = match r.below(10) {
+        0..=5 => r.range(1, max.min(8)),
+        6..=7 => r.range(1, max.min(20)),
+        _ => r.range(1, max),
+    };
+    let mut md = gen::family(&mut r, fam, n);
+    let mut mh = derive(&mut r, &md);
+    let name = TYPES[kind];
+    match kind {
+        0 => {
+            let (d, h) = (AdjacencyList::build(&md), AdjacencyList::build(&mh));
+            preds(&d, &md, o, name);
+            // the parallel is_semicomplete, once more under the tiling monitor
+            hook_begin(p, idx);
+            let got = d.is_semicomplete();
+            let ev = hook_end();
+            o.eq("AdjacencyList::is_semicomplete(hooked)", &got, &md.is_semicomplete());
+            if let Some(t) = check_tiling(&ev, graaf::verif::AL_IS_SEMICOMPLETE, md.n(), false, o, "AdjacencyList::is_semicomplete") {
+                o.sigs.push((graaf::verif::AL_IS_SEMICOMPLETE, t.signature));
+                o.bumpn("workers", t.workers);
+            }
+            preds(&h, &mh, o, name);
+            pair(&h, &d, &mh, &md, o, name);
+        }
+        1 => {
+            let (d, h) = (AdjacencyMap::build(&md), AdjacencyMap::build(&mh));
+            preds(&d, &md, o, name);
+            preds(&h, &mh, o, name);
+            pair(&h, &d, &mh, &md, o, name);
+        }
+        2 => {
+            md = gen::sparsify(&mut r, &md);
+            mh = derive_sparse(&mut r, &md);
+            let (d, h) = (build_map_any(&md), build_map_any(&mh));
+            preds(&d, &md, o, name);
+            preds(&h, &mh, o, name);
+            pair(&h, &d, &mh, &md, o, name);
+        }
+        3 => {
+            let (d, h) = (AdjacencyMatrix::build(&md), AdjacencyMatrix::build(&mh));
+            preds(&d, &md, o, name);
+            preds(&h, &mh, o, name);
+            pair(&h, &d, &mh, &md, o, name);
+        }
+        4 => {
+            let (d, h) = (EdgeList::build(&md), EdgeList::build(&mh));
+            preds(&d, &md, o, name);
+            preds(&h, &mh, o, name);
+            pair(&h, &d, &mh, &md, o, name);
+        }
+        5 => {
+            let (d, h) = (build_w_usize(&md), build_w_usize(&mh));
+            preds(&d, &md, o, name);
+            preds(&h, &mh, o, name);
+            pair(&h, &d, &mh, &md, o, name);
+        }
+        _ => {
+            gen::weights(&mut r, &mut md, gen::WClass::MixedNeg);
+            gen::weights(&mut r, &mut mh, gen::WClass::MixedNeg);
+            let (d, h) = (build_w_isize(&md), build_w_isize(&mh));
+            preds(&d, &md, o, name);
+            preds(&h, &mh, o, name);
+            pair(&h, &d, &mh, &md, o, name);
+        }
+    }
+    let nn = md.n();
+    let mut fp = Fp::new();
+    fp.us(kind);
+    md.fingerprint(&mut fp);
+    mh.fingerprint(&mut fp);
+    o.fp = fp.0;
+    // the implementation's size shortcut is satisfied, so the pair scan decides
+    o.nontrivial = md.size() >= nn * nn.saturating_sub(1) / 2 || md.n() != mh.n();
+    o.bump(name);
+    o.bump(gen::FAMILIES[fam]);
+    for (k, v) in [
+        ("true:is_complete", md.is_complete()),
+        ("true:is_semicomplete", md.is_semicomplete()),
+        ("true:is_tournament", md.is_tournament()),
+        ("true:is_regular", md.is_regular()),
+        ("true:is_balanced", md.is_balanced()),
+        ("true:is_symmetric", md.is_symmetric()),
+        ("true:is_oriented", md.is_oriented()),
+        ("true:H_subdigraph_of_D", mh.is_subdigraph_of(&md)),
+        ("true:H_spanning_subdigraph_of_D", mh.is_spanning_subdigraph_of(&md)),
+    ] {
+        if v {
+            o.bump(k);
+        }
+    }
+    if o.want_desc {
+        o.desc = format!("{name} family={} D: {} | H: {}", gen::FAMILIES[fam], md.describe(), mh.describe());
+    }
 }
